@@ -332,7 +332,7 @@ CONTRACTS += [extract_contract, extract_rec, _fold_callee]
 # =================================================================================================
 # ExpressionLowerer._try_fold_wire_merge: a wire merge of anonymous constants is folded to ONE constant whose
 # value must be what the wire would carry at run time — the int32 wrap-around sum (a network sum wraps).
-# (Lists of 2 and 3 sources: bounded list length, symbolic values.)
+# (Lists of 2, 3 and 4 sources: bounded list length, symbolic values.)
 # =================================================================================================
 from pyvc.values import SObj as _SObj, fresh_name as _fresh  # noqa: E402
 from pyvc.ghost import ghost as _ghost  # noqa: E402
@@ -391,7 +391,7 @@ def _merge_fold_post(n):
 
 
 _SRC = ty.TObj("SignalRef", only=("SignalRef",))
-for _n in (2, 3):
+for _n in (2, 3, 4):
     CONTRACTS.append(Contract(
         qualname=EL_ + "_try_fold_wire_merge",
         params={"self": ty.TObj("ExpressionLowerer", only=("ExpressionLowerer",)), "sources": ty.TTuple(tuple(_SRC for _ in range(_n))),
